@@ -6,14 +6,50 @@ import (
 	"bytes"
 	"context"
 	"database/sql"
+	"errors"
 	"fmt"
 	"io"
 	"path/filepath"
 
 	"github.com/jdillenkofer/pithos/internal/storage"
 	"github.com/jdillenkofer/pithos/internal/storage/database"
+	"github.com/jdillenkofer/pithos/internal/storage/metadatapart"
+	"github.com/jdillenkofer/pithos/internal/storage/metadatapart/partstore"
 	"github.com/jdillenkofer/pithos/internal/verifx"
 )
+
+// closeFailStore: part readers whose Close reports an error while *fail is set (the inner reader
+// is closed all the same). The release of the read transaction must not depend on it.
+type closeFailStore struct {
+	partstore.PartStore
+	fail *bool
+}
+
+func (s *closeFailStore) GetPart(ctx context.Context, tx database.Tx, id partstore.PartId) (io.ReadCloser, error) {
+	rc, err := s.PartStore.GetPart(ctx, tx, id)
+	if err != nil {
+		return nil, err
+	}
+	return &closeFailRC{ReadCloser: rc, fail: s.fail}, nil
+}
+
+// the wrapper is transparent for the capability set (transaction-free reads of a filesystem store)
+func (s *closeFailStore) Capabilities() partstore.Capabilities {
+	return partstore.CapabilitiesOf(s.PartStore)
+}
+
+type closeFailRC struct {
+	io.ReadCloser
+	fail *bool
+}
+
+func (r *closeFailRC) Close() error {
+	err := r.ReadCloser.Close()
+	if *r.fail {
+		return errors.New("verif: injected close failure")
+	}
+	return err
+}
 
 // C36: words over {Read i, Close i} on the readers of a SQL-backed multi-range GetObject.
 // The release of the read transaction is observed through a rollback hook registered by a
@@ -56,9 +92,13 @@ func runC36(args []string) {
 	ctx := context.Background()
 
 	cdb := &countingDB{}
+	failClose := false
 	st := verifx.NewStack(filepath.Join(f.Scratch, "c36"), verifx.StackOpts{
 		PartKind: "sql",
 		WrapDB:   func(d database.Database) database.Database { cdb.Database = d; return cdb },
+		WrapPartStore: func(_ database.Database, ps partstore.PartStore) partstore.PartStore {
+			return &closeFailStore{PartStore: ps, fail: &failClose}
+		},
 	})
 	defer st.Close()
 	bucket := storage.MustNewBucketName("c36")
@@ -77,15 +117,62 @@ func runC36(args []string) {
 	verifx.Must(st.Storage.CompleteMultipartUpload(ctx, bucket, key, up.UploadId, nil, nil))
 	size := int64(len(content))
 
+	// second configuration: storage-class routed named stores — a transaction-free default store
+	// (filesystem) and a SQL-backed store for GLACIER. An object in the SQL-backed store needs the
+	// read transaction exactly like above although the default store would not.
+	type target struct {
+		name    string
+		st      storage.Storage
+		cdb     *countingDB
+		bucket  storage.BucketName
+		key     storage.ObjectKey
+		content []byte
+	}
+	env := verifx.NewStackEnv(filepath.Join(f.Scratch, "c36mixed"))
+	defer env.Close()
+	mdb := &countingDB{Database: env.DB}
+	defStore := &closeFailStore{PartStore: env.Build(nil, "fs").Top, fail: &failClose}
+	coldStore := &closeFailStore{PartStore: env.Build(nil, "sql").Top, fail: &failClose}
+	mst := verifx.Must(metadatapart.NewStorageWithNamedPartStores(mdb, verifx.NewMeta(mdb), defStore,
+		map[string]partstore.PartStore{"archive": coldStore}, map[string]string{"GLACIER": "archive"}))
+	verifx.Check(mst.Start(ctx))
+	defer mst.Stop(ctx)
+	verifx.Check(mst.CreateBucket(ctx, bucket))
+	mk := func(name string, class *string) []byte {
+		k := storage.MustNewObjectKey(name)
+		var all []byte
+		for p := 1; p <= 3; p++ {
+			part := r0.Bytes(600 + 150*p)
+			all = append(all, part...)
+			if p == 1 {
+				verifx.Must(mst.PutObject(ctx, bucket, k, nil, bytes.NewReader(part), nil, &storage.PutObjectOptions{StorageClass: class}))
+			} else {
+				verifx.Must(mst.AppendObject(ctx, bucket, k, bytes.NewReader(part), nil, nil))
+			}
+		}
+		return all
+	}
+	glacier := "GLACIER"
+	coldContent := mk("cold", &glacier)
+	stdContent := mk("std", nil)
+	targets := []target{
+		{"sql", st.Storage, cdb, bucket, key, content},
+		{"mixed-cold", mst, mdb, bucket, storage.MustNewObjectKey("cold"), coldContent},
+		{"mixed-default", mst, mdb, bucket, storage.MustNewObjectKey("std"), stdContent},
+	}
+	_ = size
+
 	k := 0
 	emit := func(n int, word [][2]int, seed uint64) {
 		if !f.Wants(k) {
 			k++
 			return
 		}
+		tg := targets[k%len(targets)]
 		out.Case(k, seed)
 		k++
-		out.Line("n %d", n)
+		out.Line("n %d %s", n, tg.name)
+		content, size := tg.content, int64(len(tg.content))
 		// n disjoint-or-overlapping ranges spread over the parts
 		ranges := make([]storage.ByteRange, n)
 		exp := make([][]byte, n)
@@ -96,19 +183,19 @@ func runC36(args []string) {
 			ranges[i] = storage.ByteRange{Start: &a, End: &b}
 			exp[i] = content[a:b]
 		}
-		_, readers, err := st.Storage.GetObject(ctx, bucket, key, ranges, nil)
+		_, readers, err := tg.st.GetObject(ctx, tg.bucket, tg.key, ranges, nil)
 		if err != nil || len(readers) != n {
 			out.Line("error getobject %v", err)
 			out.End()
 			return
 		}
-		rel := cdb.last
+		rel := tg.cdb.last
 		pos := make([]int, n)
 		for _, w := range word {
 			i := w[1]
 			if w[0] == 0 { // read a small chunk; success = bytes are the expected ones
 				buf := make([]byte, 97)
-				nr, rerr := readers[i].Read(buf)
+				nr, rerr := safeRead(readers[i], buf)
 				ok := (rerr == nil || rerr == io.EOF) && pos[i]+nr <= len(exp[i]) && bytes.Equal(buf[:nr], exp[i][pos[i]:pos[i]+nr])
 				if rerr == nil && nr == 0 {
 					ok = false
@@ -118,14 +205,19 @@ func runC36(args []string) {
 				}
 				pos[i] += nr
 				out.Line("op r %d %s %d", i, okStr(ok, "fail"), released(rel))
-			} else {
-				cerr := readers[i].Close()
+			} else if w[0] == 1 {
+				cerr := safeClose(readers[i])
 				out.Line("op c %d %s %d", i, okStr(cerr == nil, "err"), released(rel))
+			} else { // Close while the part reader's own Close reports an error
+				failClose = true
+				cerr := safeClose(readers[i])
+				failClose = false
+				out.Line("op x %d %s %d", i, okStr(cerr == nil, "err"), released(rel))
 			}
 		}
 		// leave no transaction behind
 		for _, r := range readers {
-			_ = r.Close()
+			_ = safeClose(r)
 		}
 		out.End()
 	}
@@ -135,6 +227,11 @@ func runC36(args []string) {
 	emit(1, [][2]int{{0, 0}, {1, 0}, {1, 0}}, 12)
 	emit(3, [][2]int{{1, 2}, {1, 2}, {1, 2}, {0, 0}, {0, 1}, {1, 0}, {0, 1}, {1, 1}}, 13)
 	emit(4, [][2]int{{0, 3}, {1, 0}, {1, 1}, {1, 0}, {0, 2}, {0, 3}, {1, 2}, {1, 3}}, 14)
+	// a reader whose own Close fails still counts as closed: the transaction is held for the
+	// others and released after the last Close, in either order
+	emit(2, [][2]int{{0, 0}, {2, 0}, {0, 1}, {1, 1}}, 15)
+	emit(2, [][2]int{{0, 0}, {0, 1}, {1, 1}, {2, 0}}, 16)
+	emit(3, [][2]int{{0, 0}, {0, 1}, {0, 2}, {2, 1}, {2, 1}, {2, 0}, {0, 2}, {2, 2}}, 17)
 
 	if f.Tier == "thorough" {
 		// exhaustive: all words up to length 6 over 1..3 readers (alphabet 2n)
@@ -170,6 +267,9 @@ func runC36(args []string) {
 			kind := 0
 			if r.Chance(55, 100) {
 				kind = 1
+				if r.Chance(1, 5) {
+					kind = 2
+				}
 			}
 			word[i] = [2]int{kind, r.Intn(n)}
 		}
@@ -177,6 +277,25 @@ func runC36(args []string) {
 	}
 	out.Flush()
 	_ = fmt.Sprint
+}
+
+// a panic inside a reader (e.g. a nil transaction handed to a SQL-backed part store) is a failed call
+func safeRead(r io.Reader, buf []byte) (n int, err error) {
+	defer func() {
+		if p := recover(); p != nil {
+			n, err = 0, fmt.Errorf("panic: %v", p)
+		}
+	}()
+	return r.Read(buf)
+}
+
+func safeClose(c io.Closer) (err error) {
+	defer func() {
+		if p := recover(); p != nil {
+			err = fmt.Errorf("panic: %v", p)
+		}
+	}()
+	return c.Close()
 }
 
 func okStr(ok bool, no string) string {
